@@ -22,7 +22,9 @@ NameOK(r) == r.name \in {"str", "none"}
 DocOK(r) == r.doc = "str"
 ReturnsOK(r) == r.returns \in {"none", "return_type"}
 NoDup(r) == ~r.dups
-SigCovered(r) == r.sig \in {"na", "covered"}
+\* every signature parameter appears exactly once; entries that the docstring documents BEYOND the signature ("extra") are not excluded
+\* by the statement
+SigCovered(r) == r.sig \in {"na", "covered", "extra"}
 ParamNamesOK(r) == \A k \in 1..Len(r.params) : r.params[k].nonempty /\ ~r.params[k].star
 ParamKeysOK(r) == \A k \in 1..Len(r.params) : ToSet(r.params[k].keys) \subseteq AllowedKeys
 ParamTypOK(r) == \A k \in 1..Len(r.params) : r.params[k].typ \in {"absent", "parses"}
